@@ -305,7 +305,149 @@ func runDagOpen(args []string) {
 		k++
 		_ = os.Remove(path)
 	}
+	// The same counterexample for the chunk index (B-tree version 1): two nodes per level, each pointing to both nodes of
+	// the level below - 2^40 root-to-leaf paths in a few kilobytes.  Every reader of chunked data is asked.
+	for _, reader := range []string{"read", "slice", "hyperslab", "iterator"} {
+		ev := lib.Ev{"op": "dag", "family": "chunk-dag-" + reader, "sb": 2, "depth": 40, "res": "", "msg": "", "ms": 0}
+		path := lib.TmpFile(dir, k, "cdag")
+		res, msg := lib.Call(func() error { return buildChunkDag(path, 40) })
+		reset := lib.Ev{"op": "reset", "cfg": map[string]interface{}{"family": "chunk-dag", "wf": false, "blocks": [][]hcEntry{}, "ver": 0, "crt": false, "rev": false, "gap": 0, "nblocks": 0}}
+		if res != "ok" {
+			ev["res"], ev["msg"] = "setup-"+res, msg
+			tr.Put(k, []lib.Ev{reset, ev})
+			k++
+			continue
+		}
+		type answer struct{ r, m string }
+		done := make(chan answer, 1)
+		t0 := time.Now()
+		go func() {
+			r, m := lib.Call(func() error {
+				f, err := hdf5.Open(path)
+				if err != nil {
+					return err
+				}
+				defer f.Close()
+				var ds *hdf5.Dataset
+				f.Walk(func(p string, o hdf5.Object) {
+					if d, ok := o.(*hdf5.Dataset); ok && ds == nil {
+						ds = d
+					}
+				})
+				if ds == nil {
+					return fmt.Errorf("dataset not listed")
+				}
+				switch reader {
+				case "read":
+					_, err = ds.Read()
+				case "slice":
+					_, err = ds.ReadSlice([]uint64{0, 0}, []uint64{2, 2})
+				case "hyperslab":
+					_, err = ds.ReadHyperslab(&hdf5.HyperslabSelection{Start: []uint64{0, 0}, Count: []uint64{2, 2}, Stride: []uint64{1, 1}, Block: []uint64{1, 1}})
+				case "iterator":
+					var it *hdf5.ChunkIterator
+					it, err = ds.ChunkIterator()
+					for n := 0; err == nil && n < 1000 && it.Next(); n++ {
+					}
+					if err == nil {
+						err = it.Err()
+					}
+				}
+				return err
+			})
+			done <- answer{r, m}
+		}()
+		select {
+		case a := <-done:
+			ev["res"], ev["msg"], ev["ms"] = a.r, a.m, int(time.Since(t0)/time.Millisecond)
+		case <-time.After(20 * time.Second):
+			ev["res"], ev["msg"], ev["ms"] = "hang", "a 15 KB file whose chunk index nodes are shared between parents (2^40 paths) was not answered within 20 s by "+reader, 20000
+		}
+		tr.Put(k, []lib.Ev{reset, ev})
+		k++
+		_ = os.Remove(path)
+	}
 	n, err := tr.WriteFile(out)
 	lib.Must(err, "write trace")
 	fmt.Printf("dagopen: cases=%d events=%d\n", k, n)
+}
+
+// buildChunkDag writes a small chunked dataset through the library and replaces its chunk index by a DAG of B-tree
+// version 1 nodes of the given height in which every node is the child of both nodes of the level above.
+func buildChunkDag(path string, top int) error {
+	fw, err := hdf5.CreateForWrite(path, hdf5.CreateTruncate)
+	if err != nil {
+		return err
+	}
+	dw, err := fw.CreateDataset("/d", hdf5.Float64, []uint64{20, 20}, hdf5.WithChunkDims([]uint64{10, 10}))
+	if err != nil {
+		return err
+	}
+	if err := dw.Write(make([]float64, 400)); err != nil {
+		return err
+	}
+	if err := fw.Close(); err != nil {
+		return err
+	}
+	image, err := os.ReadFile(path)
+	if err != nil {
+		return err
+	}
+	// the chunk index: the first B-tree version 1 node of type 1 (raw data chunks); its address stands in the layout message
+	treeAddr := -1
+	for i := 0; i+8 <= len(image); i++ {
+		if string(image[i:i+4]) == "TREE" && image[i+4] == 1 {
+			treeAddr = i
+			break
+		}
+	}
+	if treeAddr < 0 {
+		return fmt.Errorf("no chunk index node in the file the library wrote")
+	}
+	// its address stands in the layout message, right after the dimensionality byte (version 3 layout, chunked)
+	var old [8]byte
+	binary.LittleEndian.PutUint64(old[:], uint64(treeAddr))
+	at := bytes.Index(image[:treeAddr], old[:])
+	if at < 3 || image[at-2] != 2 || image[at-3] != 3 {
+		return fmt.Errorf("chunk index address not found in a version 3 chunked layout message")
+	}
+	ndims := int(image[at-1])
+	keySize := 8 + 8*ndims
+	nodeSize := (24 + 2*(keySize+8) + keySize + 7) &^ 7
+	base := (len(image) + 7) &^ 7
+	image = append(image, make([]byte, base-len(image))...)
+	addrOf := func(level, which int) uint64 { return uint64(base + (2*level+which)*nodeSize) }
+	node := func(level int, children []uint64) []byte {
+		b := make([]byte, nodeSize)
+		copy(b, "TREE")
+		b[4], b[5] = 1, byte(level)
+		binary.LittleEndian.PutUint16(b[6:], uint16(len(children)))
+		binary.LittleEndian.PutUint64(b[8:], ^uint64(0))
+		binary.LittleEndian.PutUint64(b[16:], ^uint64(0))
+		pos := 24
+		for _, c := range children {
+			pos += keySize
+			binary.LittleEndian.PutUint64(b[pos:], c)
+			pos += 8
+		}
+		return b
+	}
+	for level := 0; level <= top; level++ {
+		for which := 0; which < 2; which++ {
+			var children []uint64
+			if level > 0 {
+				children = []uint64{addrOf(level-1, 0), addrOf(level-1, 1)}
+			}
+			image = append(image, node(level, children)...)
+		}
+	}
+	rootAddr := addrOf(top+1, 0)
+	image = append(image, node(top+1, []uint64{addrOf(top, 0), addrOf(top, 1)})...)
+	var repl [8]byte
+	binary.LittleEndian.PutUint64(repl[:], rootAddr)
+	copy(image[at:], repl[:])
+	if image[8] >= 2 {
+		binary.LittleEndian.PutUint64(image[28:], uint64(len(image)))
+	}
+	return os.WriteFile(path, image, 0o600)
 }
